@@ -45,6 +45,7 @@ def gen_cases(rng, tier, shard):
         cases.append({'cps': [0x3a9, 0xe5] + rng.sample(SPECIAL, 4), 'encoding': 'mac_roman', 'ngram': 2, 'coverage': 1.0})
         # a ruleset declared utf-8-sig (what chardet reports for a list saved with a byte order mark), small and with very long terminal lists
         cases.append({'cps': rng.sample(SPECIAL, 6) + [0xfeff, 0xe9], 'encoding': 'utf-8-sig', 'ngram': 2, 'coverage': 0.6})
+        cases.append({'cps': [0xe9, 0x20], 'encoding': rng.choice(['utf-8', 'latin-1']), 'ngram': 2, 'coverage': 0.6, 'long_runs': True})
         for enc in ['utf-8-sig', rng.choice(['utf-8', 'cp1251', 'latin-1'])]:
             cases.append({'cps': [0xe9, 0x44f], 'encoding': enc, 'ngram': 2, 'coverage': 0.6, 'big_lists': rng.getrandbits(32),
                           'n_digits': rng.choice([12000, 21000, 33000]), 'n_alpha': rng.choice([0, 10500])})
@@ -85,6 +86,9 @@ def check_case(run, case):
         pws.append(pw)
     if not pws:
         run.inconc('no encodable password in batch'); return
+    if case.get('long_runs'):
+        # runs of a thousand and more characters of one class: length labels with four digits (D1000, O1203, A1100) in base structures and file names
+        pws += ['7' * 1000 + 'abc', '7' * 1000 + 'abc', '!' * 1203 + 'a', 'x' + '9' * 1024, 'q' * 1100 + '1']
     if case.get('big_lists'):
         # terminal lists of many thousand values (a leaked list easily has 10^5 distinct six-digit strings): whatever the writer does in blocks, line 10 001
         # (or byte 65 537) of a file reads back like line 2
